@@ -66,6 +66,12 @@ def build_world(ctx, rng, base, git):
     (proj / "readonly.py").write_text("z = 3\n")
     os.chmod(proj / "readonly.py", 0o444)
     (proj / "LICENSE").write_text("licence blurb\n")
+    (proj / "LICENSES").mkdir(exist_ok=True)
+    if rng.random() < 0.5:
+        (proj / "LICENSES" / "LicenseRef-two.txt").write_text("already here\n")
+    elif rng.random() < 0.5:
+        (sent / "shared-licence.txt").write_text("shared text outside the project\n")
+        os.symlink(str(sent / "shared-licence.txt"), proj / "LICENSES" / "LicenseRef-two.txt")
     (proj / "notes.unknownext").write_text("notes\n")
     ignored = set()
     if git:
@@ -129,10 +135,23 @@ def pick_command(rng, proj, sent, recipe, covered, outdir):
         return gl, ["convert-dep5"], allowed, "convert-dep5"
     # download: network refused; LicenseRef- is created locally
     ids = rng.sample(["MIT", "LicenseRef-local-one", "LicenseRef-two", "Apache-2.0", "0BSD+"], rng.randint(1, 3))
+    extra = []
     if rng.random() < 0.3:
         ids = ["--all"]
-    allowed = {"proj/LICENSES"} | {f"proj/LICENSES/{i}.txt" for i in ids if i.startswith("LicenseRef-")}
-    return gl, ["download"] + ids, allowed, "download"
+    elif rng.random() < 0.5:
+        # LicenseRef- texts copied from a --source file or directory outside the project
+        src = sent / rng.choice(["outside.py", "odir"])
+        if src.is_dir():
+            for i in ids:
+                if i.startswith("LicenseRef-"):
+                    (src / f"{i}.txt").write_text(f"text of {i}\n")
+        extra = ["--source", str(src)]
+    # download only ever *adds* files: a target that exists already (also as a link to somewhere else) is not in the write set
+    allowed = {"proj/LICENSES"} | {f"proj/LICENSES/{i}.txt" for i in ids
+                                    if i.startswith("LicenseRef-") and not os.path.lexists(proj / "LICENSES" / f"{i}.txt")}
+    if extra and extra[1].endswith("odir"):
+        allowed |= {f"sentinel/odir/{i}.txt" for i in ids if i.startswith("LicenseRef-")}  # written by the harness itself, before the snapshot
+    return gl, ["download"] + extra + ids, allowed, "download"
 
 
 def judge(res, base, proj, before, after, events, allowed, label, args, git, via="in-process"):
@@ -150,26 +169,28 @@ def judge(res, base, proj, before, after, events, allowed, label, args, git, via
         res.violation(f"{label}:writes-{where}", f"`reuse {' '.join(args)[:160]}` {what} {rel}, which is not in its documented write set ({via})",
                       allowed=sorted(allowed)[:20], diff=diff)
         return False
+    # The audit hook sees *attempts*.  Every lasting effect is already in the snapshot difference (content, mode, mtime, ctime);
+    # what only the event log can show is a file created and removed again in between.
     basep = str(base) + os.sep
+    created, removed = set(), set()
     for e in events:
         for p in (e.get("path"), e.get("path2")):
             if not p or not p.startswith(basep):
                 continue
             rel = os.path.relpath(p, base)
-            real = os.path.relpath(os.path.realpath(p), os.path.realpath(base))
-            if rel.startswith("proj/.git/"):
+            if rel.startswith("proj/.git/") or rel in allowed:
                 continue
-            if rel in allowed and real == rel:
+            if rel in before or rel in after:
+                if before.get(rel) == after.get(rel):
+                    res.cell("attempt-without-effect")
                 continue
-            if e["ev"] == "os.mkdir" and any(a.startswith(rel + "/") or a == rel for a in allowed):
-                continue
-            if real != rel and real not in allowed:
-                res.violation(f"{label}:writes-through-symlink", f"`reuse {' '.join(args)[:160]}`: {e['ev']} on {rel} which resolves to {real} ({via})")
-                return False
-            if rel not in allowed:
-                res.violation(f"{label}:mutation-event-outside-write-set", f"`reuse {' '.join(args)[:160]}`: {e['ev']} on {rel} ({via})",
-                              allowed=sorted(allowed)[:20])
-                return False
+            if e["ev"] in ("open-w", "os.mkdir", "shutil.copyfile", "os.link", "os.symlink", "os.rename"):
+                created.add(rel)
+            if e["ev"] in ("os.remove", "os.rmdir", "os.rename", "shutil.rmtree"):
+                removed.add(rel)
+    for rel in sorted(created & removed):
+        res.violation(f"{label}:transient-file-outside-write-set", f"`reuse {' '.join(args)[:160]}` created and removed {rel}, which is not in its documented write set ({via})")
+        return False
     if tolerated:
         res.cell("tolerated:.git")
     return True
@@ -233,14 +254,14 @@ def run_case(case, ctx):
                 gl, cmd, allowed, label = pick_command(rng, proj, sent, recipe, covered, outdir)
                 args = gl + ["--root", str(proj)] + cmd
                 use_strace = (case["k"] * 31 + i) % 12 == 0
-                before = snapshot(base)
+                before = snapshot(base, with_ctime=True)
                 if use_strace:
                     try:
                         p, muts = strace_run(base, proj, gl, cmd)
                     except subprocess.TimeoutExpired:
                         ctx.count("strace_timeouts")
                         continue
-                    after = snapshot(base)
+                    after = snapshot(base, with_ctime=True)
                     ctx.count("strace_runs")
                     ctx.count("strace_mutating_syscalls", len(muts))
                     ok = judge(res, base, proj, before, after, muts, allowed, label, cmd, git, via="strace")
@@ -250,7 +271,7 @@ def run_case(case, ctx):
                         r = run_cli(args, cwd=str(proj))
                     finally:
                         events = FS.end()
-                    after = snapshot(base)
+                    after = snapshot(base, with_ctime=True)
                     ctx.count("mfs_events", len(events))
                     if r.escaped:
                         res.violation(f"escaped-exception:{label}", f"{r.exc_type} left main() for `{' '.join(cmd)[:120]}`", tb=r.exc_tb)
